@@ -45,7 +45,7 @@ if h:
 c.finish(
     assumptions=[
         "wall time, allocation (runtime.MemStats.TotalAlloc delta) and goroutine counts are MEASURED on the implementation for the generated cases, not proved; "
-        "thresholds: 5 s + 50 us per input/output byte; StreamBudget(rawLen) + 4*|out| + 1 MiB*(1+stages); goroutine count back to baseline within 2 s of Close; "
+        "thresholds: 5 s + 50 us per input/output byte of CPU time (user+system of the decoding process: independent of the load on the machine; wall-clock serves only as a hang guard: 90 s without output and without CPU use); StreamBudget(rawLen) + 4*|out| + 1 MiB*(1+stages); goroutine count back to baseline within 2 s of Close; "
         "a suspected violation is re-run three times in fresh processes before it is reported",
         "for JBIG2 inputs with many large regions the LIVE heap is sampled during the decode (runtime.GC + HeapAlloc every 2 ms) against StreamBudget(rawLen) + 1 MiB: this ties the pool model's live <= peak <= taken invariant to the bytes really reachable, by measurement; for those cases the cumulative TotalAlloc is not judged",
         "progressive JPEGs built by the harness from scan scripts (DC/AC, first pass/refinement, EOB-run tokens, restart intervals; up to 10000 scans of 26 bytes over 131044 blocks in the quick tier) run under the same tighter watchdog; "
